@@ -12,12 +12,12 @@ for log in sys.argv[1:]:
         if not line.startswith('{'):
             continue
         c = json.loads(line)
-        m = re.match(r'/tmp/seed2-(C\d+)/(\d)$', c['seed'])
+        m = re.match(r'/tmp/seed([23])-(C\d+)/(\d)$', c['seed'])
         if not m:
             continue
-        prop, n = m.group(1), int(m.group(2))
+        rnd, prop, n = int(m.group(1)), m.group(2), int(m.group(3))
         ok = c.get('build_rc') == 0 and c.get('suite_rc') == 0 and c.get('suite_failed_tests') == 0 and c.get('demo_with_patch_rc') not in (0, None) and c.get('demo_clean_rc') == 0
-        name = '%s-%d' % (prop, n + 2)
+        name = '%s-%d' % (prop, n + 2 * (rnd - 1))
         if not ok:
             print('NOT CONFIRMED', name, c)
             continue
@@ -30,8 +30,8 @@ for log in sys.argv[1:]:
         mm = re.search(r'(?is)(#+[^\n]*(needs|manifest)[^\n]*\n.*?)(\n#+ |\Z)', readme)
         if mm:
             needs = mm.group(1)[:1500]
-        meta = {'name': name, 'property': prop, 'property_title': titles.get(prop, ''), 'round': 2,
-                'origin': 'written by a fresh sub-agent that was given only the text of the property and a scratch git worktree of /repo (second round: told which places the first round had used, nothing else)',
+        meta = {'name': name, 'property': prop, 'property_title': titles.get(prop, ''), 'round': rnd,
+                'origin': 'written by a fresh sub-agent that was given only the text of the property and a scratch git worktree of /repo (later rounds: told which places the earlier rounds had used, nothing else)',
                 'needs_to_manifest': needs,
                 'confirmed': {'script': 'tools/confirm_seed.sh (scratch worktree of /repo at 11b0868)', 'patched_tree_builds': True,
                               'existing_suite_passes_with_patch': True, 'demo_fails_with_patch': True, 'demo_passes_on_clean_tree': True, 'raw': {k: v for k, v in c.items() if k != 'seed'}},
